@@ -370,7 +370,7 @@ func genRegCase(rng *rand.Rand) *regCase {
 			st.Method = meths[rng.Intn(len(meths))]
 			st.Hdr = rng.Intn(5) == 0
 			if rng.Intn(25) == 0 {
-				st.Method = []string{"BREW", "", " GET", "GET ", "G\xc9T", "**", "GET,POST"}[rng.Intn(7)]
+				st.Method = []string{"BREW", "", " GET", "GET ", "G\xc9T", "**", "GET,POST", "ANY", "any", "ALL", "Any", "*GET", "HTTP", "QUERY"}[rng.Intn(14)]
 				st.Intent = "unknown method"
 			} else if st.Split == 0 && rng.Intn(20) == 0 {
 				// Routes() with one more method as a string argument (known, or known only after trimming / splitting)
